@@ -23,6 +23,7 @@ ASSUMPTIONS = [
     "A2/A3 of vsched (see C01); callbacks do not call back into the router (the property's own restriction)",
     "the lock itself is covered by C01-C03/C12; here any locking scheme that makes operations atomic is accepted",
     "programs: up to 3 pre-subscribed observers, 2-4 threads, <= 3 operations each, keys of depth <= 2; schedules are sampled, not exhausted",
+    "some notify/exists/depth calls are issued from inside a callback of a second router (the caller then holds that router's read lock); the second router is never written",
 ]
 
 
@@ -46,8 +47,11 @@ def programs(seed, count):
             ops, mine = [], []
             for _ in range(rnd.randrange(1, 4)):
                 r = rnd.random()
-                if r < 0.40:
+                if r < 0.34:
                     ops.append("N" + rnd.choice(PATS))
+                elif r < 0.40:
+                    # the same read-side operations issued from inside a callback of a second, unrelated router
+                    ops.append("O" + rnd.choice(["N" + rnd.choice(PATS), "N" + rnd.choice(PATS), "E" + rnd.choice(PATS), "D"]))
                 elif r < 0.58:
                     ops.append("S%s#%d" % (rnd.choice(KEYS), nid))
                     mine.append(nid)
@@ -73,7 +77,7 @@ def programs(seed, count):
             pre = ["S%s/a#1" % par, "S%s/b#2" % par, "S%s#3" % par, "U%d" % rnd.choice([1, 2])]
             nid = 4
             progs = []
-            readers = ["N%s/r:.*" % par, "Nr:.*/r:.*", "E%s/r:.*" % par, "D", "N%s" % par]
+            readers = ["N%s/r:.*" % par, "Nr:.*/r:.*", "E%s/r:.*" % par, "D", "N%s" % par, "ON%s/r:.*" % par, "OD"]
             for w in range(rnd.randrange(2, 5)):
                 ops = []
                 for _ in range(rnd.randrange(1, 4)):
